@@ -492,6 +492,49 @@ class DocGen:
         self.frags.append(f)
         return f
 
+    def fragment_merge(self, root):
+        """one named fragment spread under two or three sibling parents and merged
+        there with *different* direct selections of the same response key that have
+        the same number of selections, the fragment's node coming first"""
+        rng = self.rng
+        cands = []
+        for qf in root.fields:
+            t = unwrap_type(qf.type)
+            if isinstance(t, (ObjectType, InterfaceType)):
+                for f in t.fields:
+                    u = unwrap_type(f.type)
+                    if isinstance(u, (ObjectType, InterfaceType, UnionType)) and not any(a.required for a in f.arguments):
+                        cands.append((qf, t, f, u))
+        if not cands:
+            return []
+        qf, t, f, u = rng.choice(cands)
+        key = self.alias()
+        pool = [x for x in (u.fields if isinstance(u, (ObjectType, InterfaceType)) else [])
+                if not isinstance(unwrap_type(x.type), (ObjectType, InterfaceType, UnionType))
+                and not any(a.required for a in x.arguments)]
+
+        def leafs(n):
+            out = []
+            for _ in range(n):
+                nm = rng.choice(pool).name if pool and rng.random() < 0.6 else "__typename"
+                out.append({"k": "field", "alias": self.alias(), "name": nm, "args": [], "dirs": [], "sels": None})
+            return out
+
+        self.nfrag += 1
+        name = "Mg%d" % self.nfrag
+        self.frags.append({"kind": "frag", "name": name, "on": t.name, "dirs": [], "sels": [
+            {"k": "field", "alias": key, "name": f.name, "args": [], "dirs": [], "sels": leafs(rng.randint(1, 2))}]})
+        self.frag_vars[name], self.frag_spreads[name] = set(), set()
+        self.cur_spreads.add(name)
+        n = rng.randint(1, 2)
+        out = []
+        for _ in range(rng.randint(2, 3)):
+            out.append({"k": "field", "alias": self.alias(), "name": qf.name, "args": self.args_for(qf.arguments),
+                        "dirs": [], "sels": [
+                            {"k": "spread", "name": name, "dirs": []},
+                            {"k": "field", "alias": key, "name": f.name, "args": [], "dirs": [], "sels": leafs(n)}]})
+        return out
+
     def closure(self, names):
         seen, todo = set(), list(names)
         while todo:
@@ -512,6 +555,8 @@ class DocGen:
                 sels[0]["dirs"] = []
         else:
             sels = self.selset(root, 0)
+            if self.rng.random() < 0.35:
+                sels.extend(self.fragment_merge(root))
         dirs = []
         if self.rng.random() < 0.15:
             d = self.schema.directives["anchor"]
@@ -802,9 +847,22 @@ def violate(rng, schema, doc, label):
         q["sels"].append(a)
     elif label == 25:
         q = _query_op(d, rng)
-        c = rng.randint(0, 3)
+        c = rng.randint(0, 6)
         leaf = lambda al, nm, args=None: {"k": "field", "alias": al, "name": nm, "args": args or [], "dirs": [], "sels": None}
         a = _anchor_field(rng)
+        if c >= 4:
+            # one key carried by two different fields under exclusive object types (fine
+            # within the set); a further same-key field that conflicts with the *second*
+            # (or third) entry only, met through a named fragment or through the merge of
+            # two same-key parents
+            hit = _exclusive_conflict(rng, schema, named=(c != 5))
+            if hit is None:
+                return None
+            sels, frag = hit
+            q["sels"].extend(sels)
+            if frag is not None:
+                d["defs"].insert(rng.randint(0, len(d["defs"])), frag)
+            return d
         if c == 0:
             a["sels"] += [leaf("zc", "name"), leaf("zc", "id")]
         elif c == 1:
@@ -824,6 +882,44 @@ def violate(rng, schema, doc, label):
     else:
         raise ValueError(label)
     return d
+
+
+def _exclusive_conflict(rng, schema, named):
+    cands = []
+    for qf in schema.query_type.fields:
+        p = unwrap_type(qf.type)
+        if isinstance(p, (InterfaceType, UnionType)):
+            objs = [o for o in schema.get_possible_types(p)]
+            for b in objs:
+                fb = [x for x in b.fields if not any(a.required for a in x.arguments)]
+                others = [o for o in objs if o is not b]
+                if fb and others:
+                    cands.append((qf, p, others, b, fb))
+    if not cands:
+        return None
+    qf, p, others, b, fbs = rng.choice(cands)
+    fb = rng.choice(fbs)
+    g = DocGen(rng, schema)
+    g.const, g.cur_vars = True, set()
+    args = g.args_for(qf.arguments)
+    key = "zx%d" % rng.randint(10, 99)
+    sub = None
+    if isinstance(unwrap_type(fb.type), (ObjectType, InterfaceType, UnionType)):
+        sub = [_leaf(None, "__typename")]
+    first = [{"k": "inline", "on": o.name, "dirs": [], "sels": [_leaf(key, "__typename")]}
+             for o in rng.sample(others, rng.randint(1, min(2, len(others))))]
+    second = {"k": "inline", "on": b.name, "dirs": [], "sels": [
+        {"k": "field", "alias": key, "name": fb.name, "args": [], "dirs": [], "sels": sub}]}
+    clash = {"k": "inline", "on": b.name, "dirs": [], "sels": [_leaf(key, "__typename")]}
+    if named:
+        fname = "ZEx%d" % rng.randint(10, 99)
+        frag = {"kind": "frag", "name": fname, "on": p.name, "dirs": [], "sels": [clash]}
+        sel = {"k": "field", "alias": "zp", "name": qf.name, "args": args, "dirs": [],
+               "sels": first + [second, {"k": "spread", "name": fname, "dirs": []}]}
+        return [sel], frag
+    s1 = {"k": "field", "alias": "zp", "name": qf.name, "args": copy.deepcopy(args), "dirs": [], "sels": first + [second]}
+    s2 = {"k": "field", "alias": "zp", "name": qf.name, "args": copy.deepcopy(args), "dirs": [], "sels": [clash]}
+    return [s1, s2], None
 
 
 # -------------------------------------------------------- free mutants
@@ -880,6 +976,24 @@ def special_mutants(rng):
                     {"kind": "frag", "name": n4, "on": "AnchorObj", "dirs": [], "sels": [_leaf("x", fields[1])]}]
             out.append({"defs": defs})
             out.append({"defs": defs[::-1]})
+    # one key under two exclusive parents, a further same-key field clashing with the
+    # second entry only (through a named fragment / through two merged parents), both orders
+    for order in (0, 1):
+        for named in (True, False):
+            a = _anchor_field(rng)
+            two = [{"k": "inline", "on": "Query", "dirs": [], "sels": [_leaf("n", "__typename")]},
+                   {"k": "inline", "on": "AnchorObj", "dirs": [], "sels": [_leaf("n", "name")]}]
+            if order:
+                two.reverse()
+            clash = {"k": "inline", "on": "AnchorObj", "dirs": [], "sels": [_leaf("n", "id")]}
+            if named:
+                a["sels"] = two + [{"k": "spread", "name": "ExF", "dirs": []}]
+                out.append({"defs": [{"kind": "op", "op": "query", "name": None, "vars": [], "dirs": [], "sels": [a]},
+                                     {"kind": "frag", "name": "ExF", "on": "AnchorObj", "dirs": [], "sels": [clash]}]})
+            else:
+                a2 = copy.deepcopy(a)
+                a["sels"], a2["sels"] = two, [clash]
+                out.append({"defs": [{"kind": "op", "op": "query", "name": None, "vars": [], "dirs": [], "sels": [a, a2]}]})
     # transitive fragment use through >= 3 fragments, every definition order
     for var_defined in (True, False):
         a = _anchor_field(rng)
